@@ -2,6 +2,8 @@
 import itertools
 from check import Property
 from props import tableutil as tu
+from props import nodeutil as nu
+from props import routeutil as ru
 
 U = ["0a000000/8", "0a010000/16", "0a010200/24", "0a020000/16"]
 
@@ -10,7 +12,9 @@ class C12(Property):
     id = "C12"
     rule = ("announcement sequences per peer over all subsets and orders of a 4-claim universe incl. duplicates (exhaustive to length 3 in quick, "
             "4 in thorough), with a second peer's entries interleaved, time steps, disconnects and lookups between; after every step the dump is "
-            "compared with the history reference: claims per peer == last announcement, no entry for a disconnected peer; "
+            "compared with the history reference: claims per peer == last announcement, no entry for a disconnected peer; node level: the same on real "
+            "nodes - a connected peer changes its claims at run time and the other node's view must equal the new list after one announcement "
+            "interval; a silent peer is timed out together with its learned addresses; "
             "non-trivial = distinct sequence in which some claim is dropped or a peer removed")
 
     def gen(self, rng, tier):
@@ -46,15 +50,31 @@ class C12(Property):
                 if o[0] in "SRH":
                     o2.append("D")
             out.append("table %d %d %s" % (cto, clto, " ".join(o2)))
+        # node level: how the NODE drives the table - a connected peer's claims change at run time (withdrawn, shrunk, moved, grown),
+        # and a peer that taught addresses falls silent and is timed out
+        k = 80 if thorough else 10
+        out += ru.reannounce_cases(rng, k) + ru.silent_learned_cases(rng, k)
         return out
 
+    def model_line(self, line, impl_out):
+        return nu.model_line(line, impl_out) if ru.is_node(line) else line
+
+    def canon_impl(self, line, out):
+        return nu.canon_impl(out) if ru.is_node(line) else super().canon_impl(line, out)
+
     def nontrivial(self, line, impl_out):
+        if ru.is_node(line):
+            return True
         return " R." in line or " S.1.-" in line or line.count(" S.1.") >= 2
 
     def tag(self, line, impl_out):
+        if ru.is_node(line):
+            return "node:" + ru.family_of(line)
         return "table:S%d/R%d" % (min(4, line.count(" S.")), min(2, line.count(" R.")))
 
     def oracle(self, line, impl_out):
+        if ru.is_node(line):
+            return ru.oracle(line, impl_out)
         return tu.ref_check(line, impl_out)
 
 
